@@ -7,4 +7,9 @@ require (
 	github.com/goplus/xgo v0.0.0
 )
 
+require (
+	github.com/goplus/gogen v1.18.1 // indirect
+	github.com/qiniu/x v1.15.0 // indirect
+)
+
 replace github.com/goplus/xgo => /repo
